@@ -68,6 +68,7 @@ type Exec struct {
 	clauseProps []string
 	inSpec    int
 	pendingPtrs []*Term
+	oblSeen   map[string]bool
 	noAlloc   int
 	covers    []*Obligation
 }
@@ -100,6 +101,16 @@ func (ex *Exec) oblige(kind, detail string, pos token.Pos, pc, goal *Term, claus
 		ex.ctx.folded++
 		return
 	}
+	// identical obligations (same goal under the same path condition) are generated
+	// once: unrolled loops repeat the same checks
+	dk := fmt.Sprintf("%s/%d/%d/%d", kind, pc.id, goal.id, len(ex.assumes))
+	if ex.oblSeen == nil {
+		ex.oblSeen = map[string]bool{}
+	}
+	if ex.oblSeen[dk] {
+		return
+	}
+	ex.oblSeen[dk] = true
 	base := fmt.Sprintf("%s/%s:%s", ex.rootName, kind, detail)
 	ex.oblCount[base]++
 	name := base
